@@ -262,10 +262,22 @@ def value_fields(v, cname):
     return hit[2] if hit is not None and hit[1] == cname and hit[0].eq(v.term) else None
 
 
+def _round_tag(v, node):
+    """the `round=` argument of pen.glyph: fontTools' otRound -> 1, noRound -> 0 (the glyf record remembers WHICH function it was built with)"""
+    from fontTools.misc import roundTools
+
+    f = getattr(v.py, "obj", None) if v.is_py else None
+    if f is roundTools.otRound:
+        return Val.const(1)
+    if f is roundTools.noRound:
+        return Val.const(0)
+    raise Unsupported("pen.glyph(round=...) with a function other than fontTools' otRound / noRound", node)
+
+
 def _ttpen_glyph(ex, st, self, args, kwargs, node):
     src = ex.read_field(st, self, "drawn")
     return new_value_object(
-        ex, st, "C02_TTGlyph", src=src, empty=Val.const(False), round=kwargs["round"], dropImpliedOnCurves=kwargs.get("dropImpliedOnCurves", Val.const(False)),
+        ex, st, "C02_TTGlyph", src=src, empty=Val.const(False), round=_round_tag(kwargs["round"], node), dropImpliedOnCurves=kwargs.get("dropImpliedOnCurves", Val.const(False)),
         penGlyphSet=ex.read_field(st, self, "glyphSet"), numberOfContours=Val(INT, _tt_fn("tt_contours", INT)(lift(src))),
         flags=Val(List(_FLAG), _tt_fn("tt_flags", List(_FLAG))(lift(src))))
 
@@ -287,7 +299,7 @@ _CUBIC = "(not {g}.tt_invalid and {g}.tt_contours > 0 and any(128 in f for f in 
 _RAISES = "self.glyphDataFormat == 0 and any(" + _CUBIC.format(g=_G) + " for a in range(len(self.glyphOrder)))"
 _TTC_COMMON = dict(
     params={"self": Ref("C02_TTCompiler")},
-    globals={"otRound": 1, "noRound": 0, "flagCubic": Val.const({128}), "Glyph": Val.obj(FuncRef(None, "c02.empty_glyph"))},
+    globals={"flagCubic": Val.const({128}), "Glyph": Val.obj(FuncRef(None, "c02.empty_glyph"))},
     requires=["all(n in self.allGlyphs for n in self.glyphOrder)"],
     # rejected exactly when the glyf format cannot hold cubic curves and ANY point of ANY drawable glyph is flagged cubic
     raises={"ValueError": _RAISES},
